@@ -14,7 +14,7 @@ LEAN_MODULES = ["Properties.C03", "Properties.C03p", "Properties.Core", "Propert
 RULE = (
     "exhaustive: every shape string of <=4 dimensions over {0,2,3,a,c=2} with the marker (none / ... / *g) in every position x every array "
     "shape of rank 0..5 (quick) / 0..6 (thorough) over sizes {0,2,3} (sampled where the product is large) x accepted / rejected dtype (every (shape string, rank) pair meets both, in each library, rank 0 included); plus the "
-    "class x library matrix on one fixed shape. The verdict and the report (kind, axis index in the actual tensor, expected, actual) are judged "
+    "class x dtype matrix (every exported class x every dtype numpy / torch / jax can put on an array) on two fixed shapes. The verdict and the report (kind, axis index in the actual tensor, expected, actual) are judged "
     "by an independent oracle (oracle.spec_check). non-trivial = distinct (shape string, array shape) pair with at least one literal or marker"
 )
 DIMS = ["0", "2", "3", "a", "c=2"]
@@ -56,6 +56,15 @@ def cases(tier, rng, run):
                         for dt2 in ("float32", "int32"):
                             if (lib2, dt2) != (lib, dtn):
                                 out.append(Case(f"CHECK\t{cls},0,{s}\t{lib2}:{dt2}\t{'.'.join(map(str, sh))}", "exh", {"dims": dims, "cls": cls, "dt": f"{lib2}:{dt2}", "shape": sh}))
+    # the class x dtype matrix on one fixed shape: "its dtype belongs to the annotation class" for every exported class and every
+    # dtype the three libraries can put on an array (judged by the documented table, not by the observed one)
+    meta = gen_ctx.meta()
+    for cls in meta["classes"]:
+        for lib, nm, cat in meta["dtypes"]:
+            if cat == "bfloat16" and lib != 1:
+                continue   # (the documentation makes no claim)
+            for s, sh in (("a b", (2, 3)), ("...", ())):
+                out.append(Case(f"CHECK\t{cls},0,{s}\t{lib}:{nm}\t{'.'.join(map(str, sh))}", "matrix", {"dims": s.split(), "cls": cls, "dt": f"{lib}:{nm}", "shape": sh}))
     return out
 
 
